@@ -111,4 +111,10 @@ META = {
         note="Quiescence is synctest's: every goroutine of the bubble durably blocked. A goroutine that waits on a mutex or runs for ever on timers prevents quiescence; the bubble watchdog then decides from the goroutine dump (see DESIGN.md).",
         technique="runtime monitoring over enumerated event orderings in synctest bubbles: channel-state assertions at quiescence, message-log comparison, log scan, goroutine-dump diff; race detector on the racing variant",
     ),
+    "C15": dict(
+        text="Fault enumeration: every placement of one fault among the connections' message sequences and of runs of temporary accept errors in the accept sequence is executed against the real server loop, followed by random two-fault scenarios; verdicts are read from the transports' logs at quiescence.",
+        design_ref="DESIGN.md section 4, C15",
+        note="The listener and the connections are in-memory; a handler panic is injected by the harness's own handler, the other faults at the transport.",
+        technique="runtime monitoring with fault injection at every placement: answer matching per connection, transport close log, ErrorReports channel, captured log, Serve liveness",
+    ),
 }
